@@ -105,10 +105,22 @@ func genC11Text(t *rapid.T, n int) string {
 	return filler("g", l)
 }
 
+// c11LongTarget is a comma-separated recipient list of about n bytes.
+func c11LongTarget(n int) string {
+	var b strings.Builder
+	for i := 0; b.Len() < n; i++ {
+		if i > 0 {
+			b.WriteByte(',')
+		}
+		b.WriteString(fmt.Sprintf("#channel-%02d", i))
+	}
+	return b.String()
+}
+
 func genC11(t *rapid.T) *c11Case {
 	c := &c11Case{
 		Method:   rapid.SampledFrom(c11Methods).Draw(t, "method"),
-		Target:   rapid.SampledFrom([]string{"#chan", "nick", "&c"}).Draw(t, "target"),
+		Target:   rapid.SampledFrom([]string{"#chan", "nick", "&c", "#chan", "nick", c11LongTarget(60), c11LongTarget(150), c11LongTarget(400)}).Draw(t, "target"), // also recipient lists
 		SplitLen: rapid.SampledFrom([]int{-1, 0, 1, 12, 13, 13, 14, 14, 20, 23, 100, 450, 451, 5000}).Draw(t, "split_len"),
 		ArgCut:   -1,
 	}
